@@ -50,7 +50,9 @@ Print Assumptions c19_put_accepted.
 
 (* transaction start (on the parameter block as the constructor / reset() leave it: file size 0, not
    metadata-only, not empty-file): segment length = the smaller of the configured maximum and what the maximum
-   packet length allows; the transaction obtains the next provider value; id widths are equalised *)
+   packet length allows; the transaction obtains the next provider value; id widths are equalised.
+   The packet has to hold the EOF PDU as well (F19 repair), which is 6 bytes longer than a File Data PDU
+   without data (directive code, condition code, 4-byte checksum): 6 <= derived *)
 Definition derived_seg_len (r : rcfg) (w seqw : Z) (large : bool) : Z :=
   r_max_packet r - (4 + 2 * w + seqw) - (if large then 8 else 4) - (if r_crc r then 2 else 0).
 
@@ -62,7 +64,7 @@ Theorem c19_transaction_start : forall s p r sn dn d,
   let w := Z.max (l_idw (s_cfg s)) (pr_dstw p) in
   let large := 4294967295 <? zlen d in
   let derived := derived_seg_len r w (s_seq_bits s / 8) large in
-  0 <= derived ->
+  6 <= derived ->
   exists s', transaction_start s = (s', Ok tt) /\
     q_segment_len (s_p s') = (match r_max_seg r with Some m => Z.min m derived | None => derived end) /\
     q_tid (s_p s') = Some (l_id (s_cfg s), s_seq_count s) /\
@@ -87,6 +89,19 @@ Theorem c19_transaction_start_too_small : forall s p r sn dn d,
   snd (transaction_start s) = Err E_VALUE.
 Proof. exact transaction_start_too_small_partial. Qed.
 Print Assumptions c19_transaction_start_too_small.
+
+(* ... and so is one that can hold a File Data PDU (with fewer than 6 bytes of file data) but not the EOF PDU:
+   max_file_seg_len ... = Some derived with derived < 6, i.e.
+   r_max_packet r < hdr_len h + 1 + 1 + 4 + fss_len h + crc_len h.  Together with c19_transaction_start
+   the bound is exact: the transaction starts iff 6 <= derived *)
+Theorem c19_transaction_start_packet_too_small : forall s p r sn dn d,
+  s_put s = Some p -> pr_names p = Some (sn, dn) -> q_rcfg (s_p s) = Some r ->
+  lookup (fs_s s) sn = Some (File d) -> sn <> [] -> q_file_size (s_p s) = Some 0 -> q_md_only (s_p s) = false ->
+  (s_seq_bits s = 8 \/ s_seq_bits s = 16 \/ s_seq_bits s = 32) -> 0 <= s_seq_count s < 2 ^ s_seq_bits s ->
+  derived_seg_len r (Z.max (l_idw (s_cfg s)) (pr_dstw p)) (s_seq_bits s / 8) (4294967295 <? zlen d) < 6 ->
+  snd (transaction_start s) = Err E_VALUE.
+Proof. exact transaction_start_packet_too_small_partial. Qed.
+Print Assumptions c19_transaction_start_packet_too_small.
 
 (* the provider value only ever grows, so two transactions of one handler never share an id *)
 Theorem c19_seq_monotone : forall pkt s, s_seq_count s <= s_seq_count (fst (state_machine_s pkt s)).
